@@ -429,6 +429,13 @@ func checkC01(c *core.Ctx) {
 				}
 			}
 		}
+		if mf := rf.M[mSR]; mf.Present {
+			for _, f := range mf.Fails {
+				if f.Rule == "overcheck" {
+					c.Check("R9", failKey(rf, mSR, f), anchorPos(gr.p, rf.Spec.Kind, mSR), false, f.Msg+" — "+rf.where(f.Pos))
+				}
+			}
+		}
 		// R6: decoders bound a message/union body by its length prefix, so the
 		// prefix the encoders write (Size()-K) must be the exact number of bytes
 		// that follow: Size() has to equal what EncodeBebop writes.
